@@ -326,6 +326,7 @@ impl Prop for C10 {
             2 => proptest::collection::vec(prop_oneof![5 => Just(false), 1 => Just(true)], 0..200).prop_map(BitsSpec::Bools),
             2 => proptest::collection::vec(prop_oneof![1 => Just(false), 5 => Just(true)], 0..200).prop_map(BitsSpec::Bools),
             3 => (proptest::collection::vec((0u32..70, 0u32..70), 0..24), 0u32..70).prop_map(|(r, t)| BitsSpec::Runs(r, t)),
+            1 => (prop_oneof![90_000usize..140_000, 230_000usize..330_000], prop_oneof![Just(crate::gen::Kind::Uniform(1800)), Just(crate::gen::Kind::Uniform(63700)), Just(crate::gen::Kind::Zones), Just(crate::gen::Kind::PackedSpread(4100, 30, 20000))], any::<u64>(), any::<bool>()).prop_map(|(l, k, s, c)| BitsSpec::Recipe(l, k, s, c)),
             2 => (0usize..max_len, prop_oneof![Just(crate::gen::Kind::Uniform(6554)), Just(crate::gen::Kind::Uniform(32768)), Just(crate::gen::Kind::Clustered(20, 30)), Just(crate::gen::Kind::AllOne), Just(crate::gen::Kind::AllZero)], any::<u64>(), any::<bool>()).prop_map(|(l, k, s, c)| BitsSpec::Recipe(l, k, s, c)),
         ];
         let src = prop_oneof![
@@ -521,6 +522,9 @@ impl Prop for C10 {
         rep.class(&name);
         rep.class_if(d.overshoot, "nth-beyond-remainder");
         rep.class_if(case.all_sequences, "all-sequences<=6");
+        if let Src::Bits(BitsSpec::Recipe(l, _, _, _)) = &case.src {
+            rep.class_if(*l >= 83_521, "bits>=83521(long select superblocks possible)");
+        }
         let nontrivial = if double_ended { d.front && d.back } else { d.nth };
         if nontrivial || case.all_sequences {
             rep.nontrivial(hash_of(case));
@@ -534,7 +538,7 @@ impl Prop for C10 {
             "SparseVector::iter", "SparseVector::one_iter", "SparseVector::zero_iter", "SparseVector::select_iter", "SparseVector::select_zero_iter", "SparseVector::predecessor", "SparseVector::successor",
             "RLVector::iter", "RLVector::one_iter", "RLVector::zero_iter", "RLVector::select_iter", "RLVector::select_zero_iter", "RLVector::predecessor", "RLVector::successor", "RLVector::run_iter",
             "SparseVector(multiset)::iter", "SparseVector(multiset)::one_iter", "IntVector::iter", "IntVector::into_iter", "IntVectorMapper::iter",
-            "WaveletMatrix::iter", "WaveletMatrix::into_iter", "WaveletMatrix::value_iter", "WaveletMatrix::select_iter", "WaveletMatrix::predecessor", "WaveletMatrix::successor", "nth-beyond-remainder", "all-sequences<=6",
+            "WaveletMatrix::iter", "WaveletMatrix::into_iter", "WaveletMatrix::value_iter", "WaveletMatrix::select_iter", "WaveletMatrix::predecessor", "WaveletMatrix::successor", "nth-beyond-remainder", "all-sequences<=6", "bits>=83521(long select superblocks possible)",
         ] {
             if classes.get(c).copied().unwrap_or(0) == 0 {
                 return Err(format!("no generated case reached class {}", c));
@@ -546,7 +550,7 @@ impl Prop for C10 {
     fn sanitize(case: &mut Case) {
         case.all_sequences = false;
         match &mut case.src {
-            Src::Bits(b) => b.clamp(3000),
+            Src::Bits(b) => b.clamp(330_000),
             Src::Multi(_, v) => v.truncate(60),
             Src::Ints(_, v) => v.truncate(80),
             Src::Wm(v) => {
